@@ -1569,6 +1569,7 @@ func runC20(r *harness.Run) {
 	r.Extra["transitions"] = transitions
 	r.Extra["traces_validated_against_impl"] = transitions
 	r.Extra["transitions_with_judged_outcome"] = judged
+	runPinned(r, "C20")
 }
 
 // ---- replay -----------------------------------------------------------------------------------
